@@ -1088,4 +1088,120 @@ theorem C06_quiescent (S : Nat → Option Item) (w : Worker) (hW : w.hits.Perm (
     intro i _; simp
   rw [this] at hW; exact hW
 
+
+/-! ## bookkeeping survives every run, cancelled or not -/
+
+/-- the bookkeeping fields after `process_new_items`, whatever the run observes of the cancel flag -/
+theorem processNew_bookkeeping (w : Worker) (o : Obs) (hord : ∀ l, (o.inFlightOrder l).Perm l) :
+    (processNew score w o).1.inFlight.Perm (w.inFlight.filter (fun i => (o.seen0 i).isNone) ++
+      ((List.range (o.count - w.lastSnapshot)).map (· + w.lastSnapshot)).filter (fun i => (o.seen1 i).isNone)) ∧
+    (processNew score w o).1.lastSnapshot = o.count := by
+  unfold processNew
+  by_cases hcount : o.count ≠ w.lastSnapshot
+  · simp only [hcount, ne_eq, not_false_eq_true, if_true]
+    exact ⟨List.Perm.append_left _ (hord _), by trivial⟩
+  · have hcount' : o.count = w.lastSnapshot := by simpa using hcount
+    simp only [hcount', ne_eq, not_true_eq_false, if_false, Nat.sub_self, List.range_zero, List.map_nil, List.filter_nil,
+      List.append_nil]
+    exact ⟨List.Perm.refl _, by trivial⟩
+
+theorem finish_bookkeeping (w : Worker) (u p : Nat) (o : Obs) :
+    (Worker.finish len w u p o).1.inFlight = w.inFlight ∧ (Worker.finish len w u p o).1.lastSnapshot = w.lastSnapshot := by
+  unfold Worker.finish; split <;> exact ⟨rfl, rfl⟩
+
+theorem new_range_mem (last count : Nat) (h : last ≤ count) (i : Nat) :
+    i ∈ (List.range (count - last)).map (· + last) ↔ last ≤ i ∧ i < count := by
+  simp only [List.mem_map, List.mem_range]
+  constructor
+  · rintro ⟨k, hk, rfl⟩; omega
+  · intro ⟨h1, h2⟩; exact ⟨i - last, by omega, by omega⟩
+
+theorem new_range_nodup (last count : Nat) : ((List.range (count - last)).map (· + last)).Nodup := by
+  have : (List.range (count - last)).Pairwise (fun a b => a + last ≠ b + last) :=
+    (List.nodup_range (n := count - last)).imp (fun h => by omega)
+  exact List.pairwise_map.mpr this
+
+/-- in-flight list = kept old ones ++ new unpublished ones: the invariant follows -/
+theorem BK_of_parts (w' : Worker) (old : List Nat) (last count : Nat) (seen : Nat → Option Item) (hle : last ≤ count)
+    (hold_nd : old.Nodup) (hold_lt : ∀ i ∈ old, i < last)
+    (hfl : w'.inFlight.Perm (old ++ ((List.range (count - last)).map (· + last)).filter (fun i => (seen i).isNone)))
+    (hlast : w'.lastSnapshot = count) : BK w' := by
+  refine ⟨hfl.nodup_iff.mpr ?_, ?_⟩
+  · rw [List.nodup_append]
+    refine ⟨hold_nd, (new_range_nodup last count).filter _, ?_⟩
+    intro a ha b hb
+    have h1 := hold_lt a ha
+    have h2 := (new_range_mem last count hle b).mp (List.mem_filter.mp hb).1
+    omega
+  · intro i hi
+    rw [hlast]
+    have := hfl.subset hi
+    simp only [List.mem_append, List.mem_filter] at this
+    rcases this with h | h
+    · have := hold_lt i h; omega
+    · exact ((new_range_mem last count hle i).mp h.1).2
+
+/-- **the bookkeeping invariant survives every run** — any status, empty or non-empty pattern, completed or cancelled
+    at any point: a cancelled run may leave the match list half-rescored, but never loses track of which indices are
+    accounted for and which are in flight -/
+theorem BK_run (w : Worker) (st : PStatus) (pe : Bool) (o : Obs) (bk : BK w) (hc : w.lastSnapshot ≤ o.count)
+    (hord : ∀ l, (o.inFlightOrder l).Perm l) : BK (Worker.run score len w st false pe o).1 := by
+  have hb : (w.begin false) = { w with running := true, wasCanceled := false } := by simp [Worker.begin]
+  have hsortp := (C06_in_flight_sorted w.inFlight).2
+  -- the reset keeps a sub-list of the old in-flight indices
+  have rs := resetMatches_spec (w.begin false) o.seen0 (by rw [hb]; exact bk.below) (by rw [hb]; exact bk.nodup)
+  rw [hb] at rs
+  simp only at rs
+  obtain ⟨_, r2, r3, _⟩ := rs
+  have hstill_nd : ((sortNat w.inFlight).filter (fun i => (o.seen0 i).isNone)).Nodup := (hsortp.nodup_iff.mpr bk.nodup).filter _
+  have hstill_lt : ∀ i ∈ (sortNat w.inFlight).filter (fun i => (o.seen0 i).isNone), i < w.lastSnapshot :=
+    fun i hi => bk.below i (hsortp.subset (List.mem_filter.mp hi).1)
+  unfold Worker.run
+  by_cases hpe : pe = true
+  · -- empty pattern
+    simp only [hpe, if_true]
+    rw [hb]
+    have pt := processTrivial_spec (resetMatches { w with running := true, wasCanceled := false } o.seen0) o.seen1 o.count (by rw [r3]; exact hc)
+    rw [r2, r3] at pt
+    exact BK_of_parts _ _ w.lastSnapshot o.count o.seen1 hc hstill_nd hstill_lt (by rw [pt.2.1]) pt.2.2.1
+  · simp only [hpe, Bool.false_eq_true, if_false]
+    rw [hb]
+    have fb := finish_bookkeeping len (Worker.scorePass score { w with running := true, wasCanceled := false } st o).1
+      (Worker.scorePass score { w with running := true, wasCanceled := false } st o).2.1
+      (Worker.scorePass score { w with running := true, wasCanceled := false } st o).2.2 o
+    -- the scoring pass
+    have key : ∃ old : List Nat, old.Nodup ∧ (∀ i ∈ old, i < w.lastSnapshot) ∧
+        (Worker.scorePass score { w with running := true, wasCanceled := false } st o).1.inFlight.Perm
+          (old ++ ((List.range (o.count - w.lastSnapshot)).map (· + w.lastSnapshot)).filter (fun i => (o.seen1 i).isNone)) ∧
+        (Worker.scorePass score { w with running := true, wasCanceled := false } st o).1.lastSnapshot = o.count := by
+      unfold Worker.scorePass
+      simp only
+      by_cases hst : st = .rescore
+      · simp only [hst, if_true]
+        generalize hw1 : resetMatches { w with running := true, wasCanceled := false } o.seen0 = w1 at r2 r3
+        split
+        · have pt := processTrivial_spec w1 o.seen1 o.count (by rw [r3]; exact hc)
+          rw [r2, r3] at pt
+          refine ⟨_, hstill_nd, hstill_lt, ?_, ?_⟩
+          · show (rescore score _ o).1.inFlight.Perm _
+            unfold rescore; simp only; rw [pt.2.1]
+          · show (rescore score _ o).1.lastSnapshot = _
+            unfold rescore; simp only; exact pt.2.2.1
+        · have pn := processNew_bookkeeping score w1 o hord
+          rw [r2, r3] at pn
+          refine ⟨_, (hstill_nd.filter _), (fun i hi => hstill_lt i (List.mem_filter.mp hi).1), pn.1, pn.2⟩
+      · simp only [hst, if_false]
+        split
+        · have pt := processTrivial_spec { w with running := true, wasCanceled := false } o.seen1 o.count hc
+          refine ⟨w.inFlight, bk.nodup, bk.below, ?_, ?_⟩
+          · show (rescore score _ o).1.inFlight.Perm _
+            unfold rescore; simp only; rw [pt.2.1]
+          · show (rescore score _ o).1.lastSnapshot = _
+            unfold rescore; simp only; exact pt.2.2.1
+        · have pn := processNew_bookkeeping score { w with running := true, wasCanceled := false } o hord
+          exact ⟨_, bk.nodup.filter _, (fun i hi => bk.below i (List.mem_filter.mp hi).1), pn.1, pn.2⟩
+    obtain ⟨old, h1, h2, h3, h4⟩ := key
+    exact BK_of_parts _ old w.lastSnapshot o.count o.seen1 hc h1 h2 (by rw [fb.1]; exact h3) (by rw [fb.2]; exact h4)
+
+
 end NucleoVerif.Nu
